@@ -57,6 +57,7 @@ func (e *Exec) reset() {
 	e.anchors = map[string]int{}
 	e.usedCallees = map[string]bool{}
 	e.inlined = map[string]bool{}
+	e.frozenElems = map[string]bool{}
 	e.writeBlk = nil
 	e.inlineDepth = 0
 	e.sideCells = map[*ssa.Alloc]Value{}
